@@ -173,6 +173,7 @@ pub fn generate(rng: &mut Rng, thorough: bool) -> Vec<String> {
             v.push(format!("sw_pdtfrom {cal} {y} {m} {d}"));
         }
     }
+    v.push("sw_default".to_string());
     // ---- month-days with their public `iso` field overwritten ----
     for cal in ["iso8601", "gregory", "hebrew", "chinese", "japanese", "islamic-civil"] {
         for (y, m, d) in [(1972, 1, 1), (1972, 2, 29), (1972, 2, 30), (1972, 13, 1), (1972, 0, 1), (1972, 1, 0), (1972, 12, 32), (1972, 255, 255), (1973, 2, 29),
@@ -487,6 +488,34 @@ pub fn eval(t: &[&str]) -> Option<String> {
             }
             a.r("date_until", cal.date_until(&iso, &other, Unit::Month));
             a.r("date_until", cal.date_until(&other, &iso, Unit::Year));
+            Some(a.done())
+        }
+        "sw_default" => {
+            // the `Default` values of the date-like types, then their field getters, arithmetic and text
+            let d = PlainDate::default();
+            let dt = PlainDateTime::default();
+            let ym = PlainYearMonth::default();
+            let md = PlainMonthDay::default();
+            let _ = (d.to_string(), dt.to_string(), ym.to_string(), md.to_string());
+            let _ = (d.month_code(), d.day(), d.year(), d.era(), d.day_of_week(), d.days_in_month(), d.in_leap_year());
+            a.r("week_of_year", d.week_of_year());
+            let _ = (dt.month_code(), dt.day(), dt.year(), dt.days_in_year());
+            let _ = (ym.month_code(), ym.year(), ym.days_in_month(), ym.days_in_year(), ym.months_in_year(), ym.in_leap_year(), ym.era());
+            let _ = md.month_code();
+            if let Ok(du) = duration_from(&["0", "1", "0", "0", "0", "0", "0", "0", "0", "0"]) {
+                a.r("PlainDate::add", d.add(&du, None));
+                a.r("PlainDateTime::add", dt.add(&du, None));
+                a.r("PlainYearMonth::add", ym.add(&du, ArithmeticOverflow::Constrain));
+            }
+            if let Some(o) = a.r("PlainDate::try_new", PlainDate::try_new(2000, 1, 1, Calendar::default())) {
+                a.r("PlainDate::until", d.until(&o, diff_settings(Some(Unit::Month), None, 1)));
+            }
+            if let Some(o) = a.r("PlainYearMonth::new_with_overflow", PlainYearMonth::new_with_overflow(2000, 1, None, Calendar::default(), ArithmeticOverflow::Reject)) {
+                a.r("PlainYearMonth::until", ym.until(&o, diff_settings(None, None, 1)));
+            }
+            a.r("PlainDateTime::round", { let mut ro = RoundingOptions::default(); ro.smallest_unit = Some(Unit::Hour); dt.round(ro) });
+            let valid = d.iso_month() >= 1 && d.iso_day() >= 1 && ym.iso_month() >= 1 && md.iso_month() >= 1 && md.iso_day() >= 1 && dt.iso_month() >= 1;
+            if !valid { return Some("assert:default is not a date".into()); }
             Some(a.done())
         }
         "sw_durraw" => {
